@@ -346,13 +346,13 @@ theorem applyOp_inv_base {s : State} (hI : Inv s) (i : Nat) (cb : Cb) (hO : Owne
 def lookFresh (s : State) (b : Nat) (ue : Bool) (c : Nat) : State :=
   { s with mks := upd s.mks s.n { b := b, ue := ue, addr := c, target := if ue then none else some (s.mem c).ty,
                                   origin := none, mocked := false, canceled := false },
-           n := s.n + 1, ret := s.n,
+           n := s.n + 1, ret := s.n, pkg := upd s.pkg b 0,
            cache := fun b' u' c' => if b' = b ∧ u' = ue ∧ c' = c then some s.n else s.cache b' u' c' }
 
 theorem look_cases (s : State) (b : Nat) (ue : Bool) (c : Nat) :
-    (look s b ue c).2 = .ok ∧
-    ((∃ i, s.cache b ue c = some i ∧ (s.mks i).canceled = false ∧ (look s b ue c).1 = { s with ret := i }) ∨
-     ((∀ i, s.cache b ue c = some i → (s.mks i).canceled = true) ∧ (look s b ue c).1 = lookFresh s b ue c)) := by
+    (look false s b ue c).2 = .ok ∧
+    ((∃ i, s.cache b ue c = some i ∧ (s.mks i).canceled = false ∧ (look false s b ue c).1 = { s with ret := i, pkg := upd s.pkg b 0 }) ∨
+     ((∀ i, s.cache b ue c = some i → (s.mks i).canceled = true) ∧ (look false s b ue c).1 = lookFresh s b ue c)) := by
   unfold look
   cases hc : s.cache b ue c with
   | none => simp [lookFresh]
@@ -420,7 +420,7 @@ theorem lookFresh_base {s : State} (hI : Inv s) (b : Nat) (ue : Bool) (c : Nat) 
   · right; exact ⟨fun k hk => hnone k ((moth k).1 hk), hc⟩
 
 theorem look_inv_base {s : State} (hI : Inv s) (b : Nat) (ue : Bool) (c : Nat) :
-    Inv (look s b ue c).1 ∧ ∀ a x, IsBase s a x → IsBase (look s b ue c).1 a x := by
+    Inv (look false s b ue c).1 ∧ ∀ a x, IsBase s a x → IsBase (look false s b ue c).1 a x := by
   rcases (look_cases s b ue c).2 with ⟨i, _, _, h⟩ | ⟨hmiss, h⟩
   · rw [h]
     exact ⟨⟨hI.fresh, hI.act, hI.cur, hI.uniq, hI.typed, hI.cacheOK⟩, fun a x hB => hB⟩
@@ -544,6 +544,7 @@ theorem step_inv_base {s : State} (hI : Inv s) (op : Op) (hD : Disc s op) :
   cases op with
   | look b ue c => have h := look_inv_base hI b ue c; exact ⟨h.1, fun a x hB _ => h.2 a x hB⟩
   | lookBad p => exact ⟨hI, fun _ _ h _ => h⟩
+  | pkg b p => exact ⟨⟨hI.fresh, hI.act, hI.cur, hI.uniq, hI.typed, hI.cacheOK⟩, fun _ _ h _ => h⟩
   | set i v => have h := setOp_inv_base hI i v hD.1 hD.2; exact ⟨h.1, fun a x hB _ => h.2 a x hB⟩
   | apply i cb => have h := applyOp_inv_base hI i cb hD.1 hD.2; exact ⟨h.1, fun a x hB _ => h.2 a x hB⟩
   | cancel i => exact ⟨cancel_inv hI i, fun a x hB _ => cancel_base hI i a x hB⟩
